@@ -190,8 +190,18 @@ pub fn check_seq(c: &SeqCase) -> CaseResult {
                     built.push(build_both(src, &ctl, &n));
                 }
                 ctl.slow_us.store(250, std::sync::atomic::Ordering::Relaxed);
-                for ((dest, src, classes, history), (t, m)) in ms.iter().zip(built.into_iter()) {
-                    futures.push(store.merge_external_noblock(*dest, t, classes.as_deref(), *history));
+                let mut forgotten = 0;
+                for (i, ((dest, src, classes, history), (t, m))) in ms.iter().zip(built.into_iter()).enumerate() {
+                    let fut = store.merge_external_noblock(*dest, t, classes.as_deref(), *history);
+                    // fire and forget: every third handle is dropped unread while its (slowed down)
+                    // merge is queued or running; the merge counts all the same
+                    if (i as u64).wrapping_add(*dest) % 3 == 1 {
+                        drop(fut);
+                        forgotten += 1;
+                        futures.push(None);
+                    } else {
+                        futures.push(Some(fut));
+                    }
                     // commands to one shard are executed in order, shards are independent: the
                     // sequential application in issue order is the reference
                     let expect_ok = if !model.contains_key(dest) || *dest == src.id {
@@ -219,8 +229,16 @@ pub fn check_seq(c: &SeqCase) -> CaseResult {
                 }
                 ctl.slow_us.store(0, std::sync::atomic::Ordering::Relaxed);
                 for (i, (f, e)) in futures.into_iter().zip(expects.into_iter()).enumerate() {
-                    let r = f.and_then(|f| f.get());
-                    ensure!(r.is_ok() == e, "merge-burst-result", "{}", at(&format!("merge {} of the burst returned {} but the model {}", i, if r.is_ok() { "Ok" } else { "Err" }, if e { "Ok" } else { "Err" })));
+                    if let Some(f) = f {
+                        let r = f.and_then(|f| f.get());
+                        ensure!(r.is_ok() == e, "merge-burst-result", "{}", at(&format!("merge {} of the burst returned {} but the model {}", i, if r.is_ok() { "Ok" } else { "Err" }, if e { "Ok" } else { "Err" })));
+                    }
+                }
+                if forgotten > 0 {
+                    // commands of a shard are served in order: once every shard has answered a
+                    // lookup, the merges whose handles were dropped have been carried out as well
+                    let all = store.lookup(HL::All).len();
+                    ensure!(all == model.len(), "lookup-result", "{}", at(&format!("a lookup of everything after the burst returns {} tracks, {} are stored", all, model.len())));
                 }
             }
             SOp::Lookup(q) => {
